@@ -240,38 +240,38 @@ const (
 )
 
 type Event struct {
-	Kind EvKind
-	Name string
-	Sort Sort
-	Term Term
-	Raw  string
-	Ob   *Obligation
+	Kind       EvKind
+	Name       string
+	Sort       Sort
+	Term       Term
+	Raw        string
+	Ob         *Obligation
 	Structural bool // typing / allocation / axiom-instance fact: kept in modular contexts
 }
 
 type Obligation struct {
-	Unit    string // e.g. server.isNewMaster
-	Name    string // e.g. ensures#2
-	Kind    string // ensures, pre, safety, inv-init, inv-pres, frame, lock, cover
-	Clause  string // contract text or description
-	Pos     string // source position (informational only; never part of the name)
-	Goal    Term   // formula that must be valid given the prefix
-	Index   int    // event index
-	Cover   bool   // cover check: the goal must be satisfiable (sat expected)
-	Info    bool   // informational cover (reachability of a call site)
-	CoverPre *Obligation
-	ExitCover bool // reachability of one return statement
-	Parts    []Term // the goal as independently checkable parts (one per function exit); nil = single goal
-	FailPart int
-	failParts []int
-	PartPos   []string
-	ModularFrom int // >0: proved from the entry assumptions and the events from this index on (modular loop)
-	Result  string // unsat (discharged) | sat | unknown | timeout | error
-	Backend string
-	Ms      int64
-	Model   string
-	Inputs  []NamedTerm // terms worth evaluating in a model (inputs of the unit)
-	Detail  string
+	Unit        string // e.g. server.isNewMaster
+	Name        string // e.g. ensures#2
+	Kind        string // ensures, pre, safety, inv-init, inv-pres, frame, lock, cover
+	Clause      string // contract text or description
+	Pos         string // source position (informational only; never part of the name)
+	Goal        Term   // formula that must be valid given the prefix
+	Index       int    // event index
+	Cover       bool   // cover check: the goal must be satisfiable (sat expected)
+	Info        bool   // informational cover (reachability of a call site)
+	CoverPre    *Obligation
+	ExitCover   bool   // reachability of one return statement
+	Parts       []Term // the goal as independently checkable parts (one per function exit); nil = single goal
+	FailPart    int
+	failParts   []int
+	PartPos     []string
+	ModularFrom int    // >0: proved from the entry assumptions and the events from this index on (modular loop)
+	Result      string // unsat (discharged) | sat | unknown | timeout | error
+	Backend     string
+	Ms          int64
+	Model       string
+	Inputs      []NamedTerm // terms worth evaluating in a model (inputs of the unit)
+	Detail      string
 }
 
 type NamedTerm struct {
